@@ -98,7 +98,8 @@ static void item_seed (long it, void *arg)
 
 int main (int argc, char **argv)
 {
-	static const uint64_t quick[] = {1, 2, 3, 5, 255, 256, 1000, 65535, 65536, 1 << 20, 12750000};
+	/* the values above 2^22 matter most: there s'*maxv can exceed 2^53 and only the RFC's double expression is the specification */
+	static const uint64_t quick[] = {1, 2, 3, 5, 255, 256, 1000, 65535, 65536, 1 << 20, 12750000, 4194305, 6000000, 8388607, 8388608, 8388609, 10000019, 12749995, 12749999};
 	int i, thorough;
 	vf_init (argc, argv);
 	thorough = vf_tier_thorough ();
@@ -108,7 +109,7 @@ int main (int argc, char **argv)
 		uint64_t v; int e;
 		for (v = 4; v <= 64; v++) if (v != 5) MAXV[NMAXV++] = v;
 		for (e = 7; e <= 24; e++) { if (e != 8 && e != 16 && e != 20) MAXV[NMAXV++] = (uint64_t) 1 << e; if (e != 8 && e != 16) MAXV[NMAXV++] = ((uint64_t) 1 << e) - 1; MAXV[NMAXV++] = ((uint64_t) 1 << e) + 1; }
-		MAXV[NMAXV++] = 150000; MAXV[NMAXV++] = 12749999;
+		MAXV[NMAXV++] = 150000; MAXV[NMAXV++] = 5000011; MAXV[NMAXV++] = 7000003; MAXV[NMAXV++] = 9000011; MAXV[NMAXV++] = 11000027; MAXV[NMAXV++] = 12000017; MAXV[NMAXV++] = 12749990;
 	}
 	{	/* 10 000th state after seed 1, through the library itself */
 		uint64_t v = 0;
